@@ -1,4 +1,5 @@
 //! vsim — deterministic simulation with fault injection for litep2p.
+mod carrier;
 mod node;
 mod nodesim;
 mod props;
